@@ -256,6 +256,13 @@ func cmdCheck(args []string) int {
 	// known findings: a failing obligation is a known finding iff an open entry lists it and the
 	// obligation is discharged once the entry's known failing inputs are excluded.
 	violations := 0
+	replays := 0
+	maxReplays := 3
+	if *tier == "thorough" {
+		maxReplays = 12
+	}
+	// obligations for which a solver produced a model first: they are the most likely to replay
+	sort.SliceStable(failures, func(i, j int) bool { return failures[i].o.Result == "sat" && failures[j].o.Result != "sat" })
 	knownSeen := map[string]bool{}
 	replayDir := filepath.Join(verifDir, "replays", id)
 	var outLines []string
@@ -294,7 +301,14 @@ func cmdCheck(args []string) int {
 		violations++
 		os.MkdirAll(replayDir, 0o755)
 		rp := filepath.Join(replayDir, sanitizeFile(o.Name)+".json")
-		outcome := replayObligation(p, w, o, rp, outDir, seed)
+		outcome := "no-model"
+		if replays < maxReplays {
+			replays++
+			outcome = replayObligation(p, w, o, rp, outDir, seed)
+		} else {
+			writeJSON(rp, map[string]interface{}{"obligation": o.Name, "kind": o.Kind, "clause": o.Src, "where": o.Pos, "solver_result": o.Result,
+				"verifier_output": trunc(o.Output, 4000), "outcome": "no-model", "note": "replay budget of this run used by earlier failed obligations"})
+		}
 		line := fmt.Sprintf("VIOLATION property=%s replay=%s", id, rp)
 		if outcome != "confirmed" {
 			line += " no-failing-input-found"
